@@ -62,7 +62,8 @@ def parse_logged(text, want=None, path_mode=None):
         try:
             if path_mode is None:
                 import io
-                val = Chart.from_file(io.StringIO(text), want_tracks=want)
+                from chartgen import keep_alive
+                val = keep_alive(Chart.from_file(io.StringIO(text), want_tracks=want))
             else:
                 # bytes on disk: path_mode = (newline, bom)
                 data = text.encode("utf-8")
